@@ -36,7 +36,7 @@ func runCLI(args ...string) (code int) {
 	return
 }
 
-var policyPwPool = []string{strings.Repeat("a", 80), strings.Repeat("password", 9), strings.Repeat("qwerty", 12) + "1", "a", "password", "qwerty123", "alice2020", "whawty", "Tr0ub4dor&3", "correct horse battery staple", "zQ9#vLp2!xTe", "aaaaaaaaaaaaaaaaaaaaaaaa", "iloveyou", "J8$kd0-2mQ", "summer2024!", "x", "p@ssw0rd", "pr1nc3ss", "f00tb@ll", "P@ssw0rd1", "kX7#mP2$vL9@qR4&wT6!zN8%", "plinth ochre wombat sextant gherkin"}
+var policyPwPool = []string{strings.Repeat("a", 80), strings.Repeat("password", 9), strings.Repeat("qwerty", 12) + "1", "a", "password", "qwerty123", "alice2020", "whawty", "Tr0ub4dor&3", "correct horse battery staple", "zQ9#vLp2!xTe", "aaaaaaaaaaaaaaaaaaaaaaaa", "iloveyou", "J8$kd0-2mQ", "summer2024!", "x", "p@ssw0rd", "pr1nc3ss", "f00tb@ll", "P@ssw0rd1", "kX7#mP2$vL9@qR4&wT6!zN8%", "plinth ochre wombat sextant gherkin", "m.kowalczyk@srv-qx7.zt3k.example", "srv-qx7.zt3k.example"}
 
 func propC17(r *Run) {
 	inAgentBubble(r, func(w *AWorld) {
@@ -46,8 +46,11 @@ func propC17(r *Run) {
 		kind := []string{"score", "entropy", "time"}[r.Choose("cond-kind", 3)]
 		thr := map[string][]uint64{"score": {0, 1, 2, 3, 4}, "entropy": {0, 10, 20, 35, 60}, "time": {0, 1, 1000, 1000000, 1000000000000, 31536000, 18000000000000000000}}[kind][r.Choose("threshold", len(map[string][]int{"score": {0, 1, 2, 3, 4}, "entropy": {0, 1, 2, 3, 4}, "time": {0, 1, 2, 3, 4, 5, 6}}[kind]))]
 		cond := fmt.Sprintf("%s >= %d", kind, thr)
+		if thr < 100000 && r.Choose("zero-padded-threshold", 4) == 0 {
+			cond = fmt.Sprintf("%s >= %04d", kind, thr) // still a decimal number
+		}
 		if r.Choose("bad-policy", 5) == 0 {
-			bad := []string{"", "score", "score >= ", "score > 2", "score => 2", "score >= -1", "score >= 5", "score >= two", "strength >= 2", "score >= 2 extra", "entropy >= 1.5", "time >= 99999999999999999999", "SCORE >= 2", "score>=2"}[r.Choose("bad-cond", 14)]
+			bad := []string{"", "score", "score >= ", "score > 2", "score => 2", "score >= -1", "score >= 5", "score >= two", "strength >= 2", "score >= 2 extra", "entropy >= 1.5", "time >= 99999999999999999999", "SCORE >= 2", "score>=2", "score >= 0x2", "entropy >= 0b101", "time >= 1_000", "score >= 0o2", "score >= +2", "entropy >= 1e1"}[r.Choose("bad-cond", 20)]
 			w.fs.Put("/etc/whawty/p.yaml", []byte(cfg.YAML()), 0o600)
 			_, err := NewStore("/etc/whawty/p.yaml", "", "zxcvbn", bad, "")
 			r.Logf("policy condition %q -> %v", bad, err)
@@ -132,7 +135,7 @@ func propC17(r *Run) {
 			r.Fail("harness/boot", "%v", err)
 		}
 		w.startWeb(a)
-		users := []string{"root", "alice", "bob", "legacy1", "legacy2"}
+		users := []string{"root", "alice", "bob", "legacy1", "legacy2", "m.kowalczyk@srv-qx7.zt3k.example"}
 		n := 4 + r.Choose("nwrites", 10)
 		for k := 0; k < n; k++ {
 			u := users[r.Choose("user", len(users))]
